@@ -48,8 +48,44 @@ func c10Input(kind, a int) []byte {
 		return nondetBytes(a)
 	case 1:
 		return tmplBytes(tlTemplates[a])
+	case 3:
+		return wideDoc(wideDocs[a][0], wideDocs[a][1])
 	}
 	return tmplBytes(attrTemplates[a])
+}
+
+// wideDoc: one root block with n children around a free byte c (any byte but a line
+// ending): shape 0 a fenced code block of n lines, 1 a bullet list of n items, 2 a
+// paragraph of n lines, 3 n nested block quotes. Sizes are chosen around the
+// capacities a traversal might preallocate (64, 256).
+var wideDocs = [][2]int{{0, 300}, {1, 300}, {2, 200}, {3, 70}, {0, 70}, {1, 66}, {2, 40}}
+
+func wideDoc(shape, n int) []byte {
+	c := nondetByte()
+	assume(classOK(c, 'X'))
+	var d []byte
+	switch shape {
+	case 0:
+		d = append(d, "``` go\n"...)
+		for i := 0; i < n; i++ {
+			d = append(d, 'x', c, '\n')
+		}
+		d = append(d, "```\n"...)
+	case 1:
+		for i := 0; i < n; i++ {
+			d = append(d, '-', ' ', 'x', c, '\n')
+		}
+	case 2:
+		for i := 0; i < n; i++ {
+			d = append(d, 'x', c, '\n')
+		}
+	default:
+		for i := 0; i < n; i++ {
+			d = append(d, '>', ' ')
+		}
+		d = append(d, 'x', c, '\n')
+	}
+	return d
 }
 
 // H_C10(kind*1000+a, filterIndex)
@@ -108,4 +144,45 @@ func H_C10_join(n, _ int) {
 	check(len(blocks) == n, "C10.join.blocks")
 	check(vsame(got, want), "C10.join")
 	vdigest(got[:64])
+}
+
+// H_C10_reuse(fi, _): ONE renderer value is used for a sequence of renders between
+// which the caller changes its fields (as a server does): document A, document B with
+// the same reference label bound to another destination and title, A again with other
+// soft-break / raw settings and filter fi. Each output must be the canonical
+// serialization of the tree rendered under the configuration in force at that call -
+// nothing may be carried over from an earlier call.
+func H_C10_reuse(fi, _ int) {
+	x, y := nondetByte(), nondetByte()
+	assume(vand(isL(x), isL(y)))
+	var da, db []byte
+	da = append(da, "[k]: /a"...)
+	da = append(da, x)
+	da = append(da, " 't'\n\nsee [k] ![i][k] <b>x</b>\nnext\n\n<xmp>\n"...)
+	db = append(db, "[K]: /b"...)
+	db = append(db, y)
+	db = append(db, "\n\nsee [k] ![i][k] <i>x</i>\nnext\n\n<xmp>\n"...)
+	ba, ra := Parse(da)
+	bb, rb := Parse(db)
+	r := &HTMLRenderer{ReferenceMap: ra}
+	render := func(blocks []*RootBlock) []byte {
+		w := &sliceWriter{}
+		check(r.Render(w, blocks) == nil, "C10.render-error")
+		return w.b
+	}
+	g1 := render(ba)
+	check(vsame(g1, refRender(refCfg{}, ba, ra)), "C10.reuse.first")
+	r.ReferenceMap = rb
+	g2 := render(bb)
+	check(vsame(g2, refRender(refCfg{}, bb, rb)), "C10.reuse.second-document")
+	r.ReferenceMap = ra
+	r.SoftBreakBehavior = SoftBreakHarden
+	r.FilterTag = c10Filters[fi]
+	g3 := render(ba)
+	check(vsame(g3, refRender(refCfg{soft: SoftBreakHarden, filter: c10Filters[fi]}, ba, ra)), "C10.reuse.reconfigured")
+	r.IgnoreRaw = true
+	r.SoftBreakBehavior = SoftBreakSpace
+	g4 := render(bb) // B's tree with A's reference map still installed: destinations come from A's map
+	check(vsame(g4, refRender(refCfg{soft: SoftBreakSpace, ignoreRaw: true, filter: c10Filters[fi]}, bb, ra)), "C10.reuse.other-map")
+	vdigest(g2)
 }
